@@ -11,6 +11,8 @@ def excluded_by_finding(chart, prop_ids):
     """Name of the known finding whose structural predicate this document matches (it is then outside the claim)."""
     kf = json.load(open(os.path.join(VERIF, 'known_findings.json')))
     for f in kf.get('findings', []):
+        if f.get('subject', 'emitted-c') != 'emitted-c':
+            continue
         if f.get('property') in prop_ids and f.get('doc_predicate') and chartgen.FINDING_PREDICATES[f['doc_predicate']](chart):
             return f['id']
     return None
@@ -53,7 +55,7 @@ class StepRun:
         """Re-run the recorded witness of every known finding of this property: KNOWN-FINDING line while it still fails."""
         kf = json.load(open(os.path.join(VERIF, 'known_findings.json')))
         for f in kf.get('findings', []):
-            if f.get('property') != prop or 'witness_scxml' not in f:
+            if f.get('property') != prop or 'witness_scxml' not in f or f.get('subject', 'emitted-c') != 'emitted-c':
                 continue
             sx = os.path.join(self.W, 'kf_' + f['id'] + '.scxml')
             open(sx, 'w').write(f['witness_scxml'])
